@@ -1,14 +1,19 @@
 #!/bin/sh
 # tools/verify_seed.sh <mutation dir with patch.diff + demo.py> : confirm in a scratch worktree that the change
 # (1) applies, (2) keeps the existing test suite green, (3) makes demo.py fail while it passes on the clean tree.
+# The demo is copied to <worktree>/mutations/v/ and run from the worktree root, so that whatever path logic it
+# uses (cwd or three levels above the script) imports the worktree's copy of adsg_core.
 D=$1
 W=$(mktemp -d /tmp/seedwt.XXXXXX); rmdir $W
 git -C /repo worktree add -q --detach $W HEAD || exit 3
 export XDG_CACHE_HOME=$(mktemp -d)
+mkdir -p $W/mutations/v && cp $D/demo.py $W/mutations/v/demo.py
 cd $W
-/venv/bin/python $D/demo.py >/tmp/seed_clean.out 2>&1; c0=$?
+/venv/bin/python mutations/v/demo.py >/tmp/seed_clean.out 2>&1; c0=$?
 git apply $D/patch.diff || { echo "PATCH DOES NOT APPLY"; cd /; git -C /repo worktree remove --force $W; exit 3; }
-/venv/bin/python $D/demo.py >/tmp/seed_mut.out 2>&1; c1=$?
+rm -rf $XDG_CACHE_HOME; export XDG_CACHE_HOME=$(mktemp -d)
+/venv/bin/python mutations/v/demo.py >/tmp/seed_mut.out 2>&1; c1=$?
+grep -h "imported from\|^using" /tmp/seed_mut.out | head -1
 /venv/bin/python -m pytest -q -p no:cacheprovider --timeout=900 -x >/tmp/seed_tests.out 2>&1; t=$?
 echo "demo clean exit=$c0  demo mutated exit=$c1  tests exit=$t : $(tail -1 /tmp/seed_tests.out)"
 cd /; git -C /repo worktree remove --force $W; rm -rf $XDG_CACHE_HOME
